@@ -282,6 +282,35 @@ def check_handler_protocol(chk, unit):
     return n
 
 
+def case_label_of(f, node):
+    """the case/default label governing `node` inside its innermost switch (labels wrap only their first statement)"""
+    child = node
+    for anc in f.ancestors(node):
+        if anc.get("k") in ("case", "default"):
+            return anc
+        par = f.parent.get(anc["i"])
+        if anc.get("k") == "block" and par is not None and par.get("k") == "switch":
+            sibs = anc.get("ch", [])
+            idx = None
+            for i, s_ in enumerate(sibs):
+                if s_ is child or any(y is child for y in walk(s_)):
+                    idx = i
+                    break
+            if idx is None:
+                return None
+            for s_ in reversed(sibs[:idx + 1]):
+                lab = s_
+                last = None
+                while lab is not None and lab.get("k") in ("case", "default"):
+                    last = lab
+                    lab = lab.get("sub")
+                if last is not None:
+                    return last
+            return None
+        child = anc
+    return None
+
+
 # --------------------------------------------------------------------------- who may spawn
 def check_spawn(chk, prog, allowed):
     """E1: spawning calls only in the allowed functions; in each under its trigger."""
@@ -330,10 +359,9 @@ def check_exec_reachability(chk, prog, unit):
                     why = "registered under the name %r" % a0.get("sv")
                 elif p is not None and p.get("k") == "call" and X.strip(p["ch"][0]) is X.strip(x):
                     # direct call: must sit under case '`'
-                    for anc in f.ancestors(p):
-                        if anc.get("k") == "case" and X.const_val(anc.get("val")) == ord("`"):
-                            ok = True
-                    why = "direct call"
+                    lab = case_label_of(f, p)
+                    ok = lab is not None and lab.get("k") == "case" and X.const_val(lab.get("val")) == ord("`")
+                    why = "direct call under %s" % (X.render(lab.get("val")) if lab is not None and lab.get("val") else "no case label")
                 chk.ob("E2", f.name, "exec-reference", ok, loc=f.loc(x),
                        detail="%s refers to builtin_exec outside the \"exec\" table entry and the backquote arm (%s)" % (f.name, why),
                        proof="table entry \"exec\" / backquote case")
